@@ -16,7 +16,12 @@ def _objs(ttb, rs, shp=(2, 3, 4)):
     S = ttb.tensor(np.where(rs.rand(*shp) < 0.5, X, 0)).to_sptensor()
     K = ttb.ktensor([rs.rand(d, 2) + 0.1 for d in shp], np.array([1.0, 2.0]))
     TT = ttb.ttensor(ttb.tensor(rs.rand(2, 2, 2)), [rs.rand(d, 2) for d in shp])
-    return dict(T=T, S=S, K=K, TT=TT)
+    # degenerate receivers: validation must not depend on there being stored entries
+    S0 = ttb.sptensor(shape=shp)
+    one = np.zeros(shp)
+    one[tuple(d - 1 for d in shp)] = 2.0
+    S1 = ttb.tensor(one).to_sptensor()
+    return dict(T=T, S=S, K=K, TT=TT, S0=S0, S1=S1)
 
 
 def _requests(ttb, o, rs):
@@ -48,13 +53,13 @@ def _requests(ttb, o, rs):
         A(f"{name}.permute(out-of-range)", name, lambda obj=obj: obj.permute(np.arange(1, N + 1)))
         A(f"{name}.mttkrp(wrong-list-length)", name, lambda obj=obj: obj.mttkrp([np.ones((d, 2)) for d in shp][:-1], 0))
         A(f"{name}.mttkrp(wrong-rows)", name, lambda obj=obj: obj.mttkrp([np.ones((d + 1, 2)) for d in shp], 0))
-    for name in ("T", "S", "TT"):
+    for name in ("T", "S", "TT", "S0", "S1"):
         obj = o[name]
         A(f"{name}.ttm(wrong-size)", name, lambda obj=obj: obj.ttm(np.ones((2, shp[0] + 1)), 0))
         A(f"{name}.ttm(wrong-size-transposed)", name, lambda obj=obj: obj.ttm(np.ones((2, shp[0])), 0, transpose=True) if shp[0] != 2 else obj.ttm(np.ones((3, shp[0] + 1)), 0, transpose=True))
         A(f"{name}.ttm(not-a-matrix)", name, lambda obj=obj: obj.ttm(np.ones(shp[0]), 0))
         A(f"{name}.ttm(mode-out-of-range)", name, lambda obj=obj: obj.ttm(np.ones((2, shp[0])), N))
-    for name in ("T", "S"):
+    for name in ("T", "S", "S0", "S1"):
         obj = o[name]
         A(f"{name}.reshape(changes-count)", name, lambda obj=obj: obj.reshape((int(np.prod(shp)) + 1,)))
         uneq = [(i, j) for i in range(N) for j in range(N) if shp[i] != shp[j]][0]
